@@ -73,6 +73,16 @@ pub fn kb_alg_for(rng: &mut Rng, key: &str) -> Option<String> {
     }
 }
 
+/// Other verifier traffic as one more swarm dimension: one case in six is verified while another
+/// verification runs (interleaved on the other verifier thread, or from inside the resolver).
+pub fn add_traffic(rng: &mut Rng, cases: &mut [Case]) {
+    for c in cases.iter_mut() {
+        if rng.chance(1, 6) {
+            c.traffic = Some((1 + rng.usize(2) as u8, rng.next_u64()));
+        }
+    }
+}
+
 /// Now and then a claim the size of a scanned document: SD-JWTs beyond 64 KiB (16-bit
 /// lengths, header-size limits of transports, fixed buffers).
 pub fn maybe_big_claim(rng: &mut Rng, claims: &mut Value) {
@@ -117,7 +127,7 @@ fn member_names(v: &Value, out: &mut Vec<String>) {
 }
 
 fn plain(base: Base, fmt: Fmt) -> Case {
-    Case { base, faults: vec![], wire: vec![], fmt, session: None, resolver: Resolver::Directory, kb_enc: KbEnc::Absent, extra: vec![], expand: None, hold_s: 0, escapes: false, extra_raw: None, member_order: None, mirror: None, general: None }
+    Case { base, faults: vec![], wire: vec![], fmt, session: None, resolver: Resolver::Directory, kb_enc: KbEnc::Absent, extra: vec![], expand: None, hold_s: 0, escapes: false, extra_raw: None, member_order: None, mirror: None, general: None, traffic: None }
 }
 
 fn rand_char(rng: &mut Rng) -> char {
@@ -308,6 +318,8 @@ pub fn gen_c03(rng: &mut Rng, tier: Tier) -> MsgScn {
         c.faults.push(Fault::DropDisclosure(rng.usize(200)));
         cases.push(c);
     }
+    let mut cases = cases;
+    add_traffic(rng, &mut cases);
     MsgScn { kind: "msg".into(), check: "C03".into(), entropy_seed: rng.next_u64(), clock_base: now, issuers, creds, pres, cases }
 }
 
@@ -509,6 +521,8 @@ pub fn gen_c02(rng: &mut Rng, tier: Tier) -> MsgScn {
         }
         cases.push(c);
     }
+    let mut cases = cases;
+    add_traffic(rng, &mut cases);
     MsgScn { kind: "msg".into(), check: "C02".into(), entropy_seed: rng.next_u64(), clock_base: now, issuers: iss, creds, pres, cases }
 }
 
@@ -719,6 +733,8 @@ pub fn gen_c04(rng: &mut Rng, tier: Tier) -> MsgScn {
         }
         cases.push(c);
     }
+    let mut cases = cases;
+    add_traffic(rng, &mut cases);
     MsgScn { kind: "msg".into(), check: "C04".into(), entropy_seed: rng.next_u64(), clock_base: now, issuers: iss, creds, pres, cases }
 }
 
